@@ -62,6 +62,9 @@ PROP = dict(
         "and no result at the SENDER (router-level concern): classified 'lost', expected by oracle (D)",
         "a node that restarts between its revoke_and_ack and its commit_sig does not sign until the next update on that "
         "channel (lnd liveness behaviour); the harness sends doomed payments in both directions when the wire is idle",
+        "a link flap that interrupts Switch.ForwardPackets between CommitCircuits and routing leaves a half-open, "
+        "not-loaded-from-disk circuit that only a switch restart resolves (lnd liveness behaviour); after three nudge "
+        "rounds the harness performs one rescue restart, unless the dangling-forward precondition (G) holds",
         "waits are polls with a 90 s deadline (VERIF_C08_DEADLINE_S); a missed deadline, a link failure or a fixture "
         "fatal makes the case inconclusive (counter), never a violation; the dangling-HTLC verdict (G) is structural, "
         "not a timeout",
